@@ -17,6 +17,11 @@ type ObsVal struct {
 	Key   string
 	Flags uint32
 	Data  []byte
+	// GETE replies carry the expiry as well
+	HasExp bool
+	Exp    uint32
+	// reference map only: the entry's deadline (0 = never) and the time of the read
+	Deadline, Now int64
 }
 
 // Obs is what a client observed as the reply to one command, reduced to what the
@@ -191,8 +196,12 @@ func decodeBinFrames(o *Obs, op wire.Op, frames []wire.BinFrame) {
 				}
 				switch f.Status {
 				case 0:
-					if len(f.Extras) != 4 {
-						o.Discipline = append(o.Discipline, fmt.Sprintf("get hit with %d bytes of extras", len(f.Extras)))
+					wantExt := 4
+					if op.E {
+						wantExt = 8 // flags + expiry
+					}
+					if len(f.Extras) != wantExt {
+						o.Discipline = append(o.Discipline, fmt.Sprintf("get hit with %d bytes of extras (want %d)", len(f.Extras), wantExt))
 						o.Values = append(o.Values, ObsVal{Idx: idx, Data: f.Value})
 						continue
 					}
@@ -200,7 +209,11 @@ func decodeBinFrames(o *Obs, op wire.Op, frames []wire.BinFrame) {
 					if idx >= 0 {
 						k = op.Keys[idx]
 					}
-					o.Values = append(o.Values, ObsVal{Idx: idx, Key: k, Flags: binary.BigEndian.Uint32(f.Extras), Data: f.Value})
+					v := ObsVal{Idx: idx, Key: k, Flags: binary.BigEndian.Uint32(f.Extras), Data: f.Value}
+					if op.E {
+						v.HasExp, v.Exp = true, binary.BigEndian.Uint32(f.Extras[4:])
+					}
+					o.Values = append(o.Values, v)
 				case 1:
 					o.Misses = append(o.Misses, idx)
 					if idx >= 0 && idx < len(op.Quiets) && op.Quiets[idx] {
@@ -280,7 +293,7 @@ func applyModel(st *model.Store, op wire.Op) Expect {
 	case "get":
 		for i, k := range op.Keys {
 			if en := st.Get(k); en != nil {
-				e.Hits = append(e.Hits, ObsVal{Idx: i, Key: k, Flags: en.Flags, Data: append([]byte(nil), en.Value...)})
+				e.Hits = append(e.Hits, ObsVal{Idx: i, Key: k, Flags: en.Flags, Data: append([]byte(nil), en.Value...), Deadline: en.Deadline, Now: st.Now()})
 			}
 		}
 	case "gat":
@@ -400,6 +413,22 @@ func cmpVal(got, exp ObsVal) string {
 	}
 	if !bytes.Equal(got.Data, exp.Data) {
 		return fmt.Sprintf("key %q: value differs from last written (got %d bytes %s, want %d bytes %s)", exp.Key, len(got.Data), short(got.Data), len(exp.Data), short(exp.Data))
+	}
+	if got.HasExp && exp.Now != 0 {
+		// GETE: the expiry is 0 exactly for entries that never expire; otherwise it is the
+		// deadline, as an absolute time or as the seconds remaining (one second of slack)
+		switch {
+		case exp.Deadline == 0 && got.Exp != 0:
+			return fmt.Sprintf("key %q: gete reports expiry %d for an entry that never expires", exp.Key, got.Exp)
+		case exp.Deadline != 0 && got.Exp == 0:
+			return fmt.Sprintf("key %q: gete reports no expiry for an entry that expires in %d s", exp.Key, exp.Deadline-exp.Now)
+		case exp.Deadline != 0:
+			abs := int64(got.Exp) - exp.Deadline
+			rem := int64(got.Exp) - (exp.Deadline - exp.Now)
+			if (abs < -1 || abs > 1) && (rem < -1 || rem > 1) {
+				return fmt.Sprintf("key %q: gete reports expiry %d, the entry expires at %d (in %d s)", exp.Key, got.Exp, exp.Deadline, exp.Deadline-exp.Now)
+			}
+		}
 	}
 	return ""
 }
